@@ -616,7 +616,8 @@ def deleteEffect (finalizer : Bool) (live : Live) (c : Cluster) : Cluster × Str
     else (c.remove live.id, "ok")
 
 /-- the scripted environment keeps the object (deletionTimestamp only) when a finalizer is configured for it -/
-def hasFinalizer (run : Run) (id : Id) : Bool := (run.del.lookup id).getD "gone" != "gone"
+def hasFinalizer (run : Run) (id : Id) : Bool :=
+  (run.del.lookup id).getD "gone" == "finalizer" || (run.del.lookup id).getD "gone" == "finalizer-gone"
 
 /-- `Pruner.Prune` for one object -/
 def pruneOne (group : String) (uids : List String) (localNs : List String) (s : St) (live : Live) : St :=
@@ -786,6 +787,8 @@ def scriptFor (run : Run) (cond : Wait.Cond) (id : Id) : List (List Delivery) :=
     match (run.del.lookup id).getD "gone" with
     | "finalizer" => [[⟨id, .terminating, true, 0, false, false⟩]]
     | "finalizer-gone" => [[⟨id, .terminating, true, 0, false, false⟩, ⟨id, .notFound, false, 0, false, true⟩]]
+    -- deleted and re-created by another client: the watcher reports the new object (new UID) as Current
+    | "replaced" => [[⟨id, .current, true, 0, true, false⟩]]
     | _ => [[⟨id, .notFound, false, 0, false, false⟩]]
   | .allCurrent =>
     match (run.ctrl.lookup id).getD "current" with
